@@ -106,6 +106,38 @@ def dataflow_closure(fn: FuncInfo, start: set[str]) -> tuple[set[str], set[str]]
     return names, calls
 
 
+def classification_status(eng: Engine) -> tuple[str, str, int]:
+    """How Evaluator.__init__ sorts its `constraints` parameter into the evaluated lists:
+    ('partition', description, line) - a loop whose body is a closed if/elif chain (each branch appends the element to
+                                       exactly one list, the final else raises);
+    ('lossy', reason, line)           - a recognisably lossy construction (groupby over unsorted input collected into a dict);
+    ('unknown', '', line)             - anything else."""
+    ev_cls = eng.cls(EVAL_MOD, "Evaluator")
+    init = eng.method(ev_cls, "__init__")
+    for n in walk_local(init.node):
+        if isinstance(n, ast.Call) and call_name(n) == "groupby" and n.args:
+            src = n.args[0]
+            sorted_input = isinstance(src, ast.Call) and call_name(src) == "sorted"
+            if not sorted_input:
+                return ("lossy", f"`{short(n, 70)}` groups only *adjacent* elements; collected into a dict, a later run of a class overwrites the earlier one, "
+                                 "so constraints of a class that are not declared next to each other are dropped", n.lineno)
+    for lp in [x for x in init.node.body if isinstance(x, ast.For)]:  # type: ignore[attr-defined]
+        if isinstance(lp.iter, ast.Name) and lp.iter.id in init.params() and len(lp.body) == 1 and isinstance(lp.body[0], ast.If):
+            cur: Optional[ast.stmt] = lp.body[0]
+            ok = True
+            while isinstance(cur, ast.If):
+                apps = [c for c in ast.walk(ast.Module(body=cur.body, type_ignores=[])) if isinstance(c, ast.Call) and isinstance(c.func, ast.Attribute) and c.func.attr == "append"]
+                ok = ok and len(apps) == 1
+                if len(cur.orelse) == 1 and isinstance(cur.orelse[0], ast.If):
+                    cur = cur.orelse[0]
+                else:
+                    ok = ok and bool(cur.orelse) and isinstance(cur.orelse[-1], ast.Raise)
+                    cur = None
+            if ok:
+                return ("partition", "closed if/elif chain, one append per branch, else raises", lp.lineno)
+    return ("unknown", "", init.line)
+
+
 def rule_a(chk: Check, eng: Engine) -> None:
     ev_cls = eng.cls(EVAL_MOD, "Evaluator")
     fns = [eng.method(ev_cls, "evaluate_individual")]
@@ -223,7 +255,12 @@ def rule_a(chk: Check, eng: Engine) -> None:
                     "an unknown constraint kind is ignored instead of rejected", keyparts="classification-open")
         done = True
     if not done:
-        raise AnalysisError("Evaluator.__init__: classification loop over the constraints parameter not found")
+        st, why, ln = classification_status(eng)
+        if st == "lossy":
+            chk.bad("R02-a", eng.relfile(init), ln, init.fq, f"the constructor's classification of the constraints is lossy: {why}",
+                    "a dropped constraint is never evaluated: trees violating it are emitted as solutions", keyparts="classification-lossy")
+        else:
+            raise AnalysisError("Evaluator.__init__: classification loop over the constraints parameter not found")
 
     # _evaluate_constraints iterates its whole parameter --------------------------
     ec = eng.method(ev_cls, "_evaluate_constraints")
